@@ -7,6 +7,7 @@ import (
 	"kvqlverif/refeval"
 	"kvqlverif/refstore"
 	"kvqlverif/rt"
+	"strconv"
 	"strings"
 )
 
@@ -197,7 +198,16 @@ func (k c05) Run(c *rt.Ctx) {
 	}
 	st := gen.NewStore(r, c05Families[r.Intn(len(c05Families))])
 	g := fullGenFor(c, st, r)
+	// list(value, ..): only where every value is numeric text - over other text it is a list of
+	// texts, and a number looked up in it fails, which is a data-dependent failure (the two
+	// spellings of a statement need not evaluate the same operands)
 	g.RawListHead = true
+	for _, p := range st.Pairs {
+		if _, err := strconv.ParseFloat(p.V, 64); err != nil {
+			g.RawListHead = false
+			break
+		}
+	}
 	g.RefBias = r.Range(2, 4)
 	// constructs that can fail at run time depending on the data (dynamically
 	// typed JSON members, unequal vector lengths) are not generated: with them
